@@ -24,6 +24,17 @@ fn main() {
             println!("golden rows checked: {n}, mismatches: {}", bad.len());
             std::process::exit(if bad.is_empty() && n > 0 { 0 } else { 2 });
         }
+        "hyperscan" => {
+            let sp = vcore::ctors::SPECIAL_U64;
+            for &a in &sp { for &b in &sp { for &c in &sp {
+                let cost = families::hyper_cost(a,b,c);
+                if cost > families::HYPER_COST_MAX { continue; }
+                eprintln!("{} {} {} cost {}", a, b, c, cost);
+                let t = std::time::Instant::now();
+                let _ = report::catch(|| rand_distr::Hypergeometric::new(a,b,c).is_ok());
+                if t.elapsed().as_secs_f64() > 0.5 { eprintln!("   SLOW {:?}", t.elapsed()); }
+            }}}
+        }
         "diag" => {
             // verif diag '<cell json>' n : per-edge table (development aid)
             let cell: families::Cell = serde_json::from_str(&args[2]).expect("cell json");
@@ -66,6 +77,18 @@ fn main() {
                 "C03" => {
                     streams::run_c03(&ctx);
                     ctx.finish("case = (cell in E, base seed, one lattice word forced at stream position 0..7 [+ up to two region words]) -> one sample() call, checked for panic / support / NaN / undocumented infinity; plus the exhaustive sweep of all 2^24 high-bit patterns of the word at each consumed position for f32 samplers; non-trivial = the forced word was actually consumed by the call; cases are pairwise distinct by enumeration", &["the 64-bit-word-per-call stream model of DESIGN 3.1 (next_u32 = high half)", "E as fixed in DESIGN 4"], false)
+                }
+                "C13" => {
+                    exact::run(&ctx);
+                    ctx.finish("cell = (family in {Cauchy,Pareto,Weibull,Gumbel,Frechet,Triangular}, f32 parameters in E: grid, canonical location/scale for every shape, random); for each cell all 2^24 first-word high-bit patterns are pushed through sample(), the induced CDF is compared at every jump point with the documented CDF, and every output is checked against the support; evaluations = patterns; non-trivial = distinct cells found single-draw (each examines 2^24 distinct streams)", &["documented CDFs evaluated in f64 at the widened f32 parameters (validated against golden table)", "low 40 bits of the word are zero (the f32 draws ignore them)"], true)
+                }
+                "C06" => {
+                    zig::run(&ctx);
+                    ctx.finish("(a) every identity of the 4x257 table entries and 2 constants is evaluated (exhaustive): end points, monotonicity, f[i] = pdf(x[i]) to 1e-14, equal layer areas to 1e-8; (b) StandardNormal and Exp1 (f64 and f32 cast) sampled n times on bins whose edges are all abscissae (both signs), each layer interval split in 4, plus 8 conditional-quantile bins beyond R; T1/T2/T3 against exact Phi / exp, mirror-bin symmetry test (T4) for the normal; non-trivial = table identities + bins with expected count >= 1000", &ASSUME_LAW, false)
+                }
+                "C04" => {
+                    ctors::run(&ctx);
+                    ctx.finish("case = one constructor call; (1) exhaustive cross product of the per-type special-value lattice for every constructor and float type, (2) proptest-random tuples (any bit pattern, biased to the lattice) with shrinking; oracle = three-valued table transcribed from the doc comments (MustErr(variants)/MustOk/Unspecified) + no panic + accessors bit-equal; non-trivial = tuple contains a lattice value", &["Appendix C of DESIGN.md is a faithful transcription of the doc comments", "Hypergeometric tuples with construction cost > 2^27 loop steps are skipped (counted)"], false)
                 }
                 _ => {
                     eprintln!("unknown property {id}");
